@@ -16,7 +16,9 @@ ReqCommon(ev) == { <<"C10.no_panic", ev.out # "Panic">>, <<"C10.no_timeout", ev.
 
 (* a certificate request that the property obliges rcgen to honour: the sweeps only produce encodable *)
 (* parameter sets; the crypto-less build legitimately refuses an automatic serial                      *)
-CertMustSucceed(ev) == ~ev.args.signerFails /\ (ev.be # "none" \/ ev.args.params.serial.k = "given")
+CertMustSucceed(ev) == /\ ~ev.args.signerFails
+                       /\ (ev.be # "none" \/ ev.args.params.serial.k = "given")
+                       /\ InScope(ev.args.params.nb) /\ InScope(ev.args.params.na)
 
 ReqCertEv(ev) ==
   IF ev.out = "Ok"
